@@ -257,3 +257,74 @@ def c07(ctx):
     judge_replay(ctx, rep, lambda m: m.get("class") == "ended" or (m.get("class") == "vals" and m.get("exp_ended") is True),
                  "is_ended differs from the specification, or values do not rest at the terminal values while ended")
     return "model_checking", RULE_AN
+
+
+# =========================================================================================
+#  Bevy plugin: C18 C19
+# =========================================================================================
+def mc_bevy(ctx):
+    steps = 6 if ctx.quick() else 7
+    for kw in range(1, 7):
+        run_tlc(ctx, "MC_Bevy", "MC_Bevy_quick.cfg", workers=8, subst={"KW": kw, "MaxSteps": steps}, timeout=3000)
+    run_tlc(ctx, "MC_Bevy", "MC_Bevy_quick.cfg", workers=4, subst={"KW": 1, "Defects": '{"C18_phase_skip"}'}, expect_violation="C18")
+    run_tlc(ctx, "MC_Bevy", "MC_Bevy_quick.cfg", workers=4, subst={"KW": 4, "Defects": '{"C19_untyped_event"}'}, expect_violation="C19")
+
+
+def bevy_validate(ctx, trace, label, stats):
+    out = None
+    ok, rej, states = run_trace(ctx, "Trace_Bevy", trace, timeout=3000)
+    out = ctx.path("trace-Trace_Bevy.txt")
+    ctx.traces += stats["worlds"]
+    ctx.evaluations += stats["frames"]
+    if not ok:
+        ctx.violation("trace rejected (%s): the real App's behaviour is not a behaviour of Bevy.tla under any admissible system order" % label,
+                      {"first_unmatched_record": rej})
+        return
+    j = run_harness(["judge", trace, out], which=HARNESS_BEVY)
+    ctx.extra.setdefault("judge", []).append({k: j[k] for k in ("worlds", "frames_checked", "timeline_evaluations", "mismatches")})
+    for m in j["first"]:
+        ctx.violation("component contents (%s): not the timeline evaluated where the specification says it was evaluated" % label, m)
+
+
+def bevy_legs(ctx):
+    # leg A: TLC enumerates the input schedules
+    for kw in ((1, 3, 4, 5) if ctx.quick() else range(1, 7)):
+        run = run_tlc(ctx, "MC_Bevy", "Gen_Bevy.cfg", workers=4, subst={"KW": kw, "MaxSteps": 4 if ctx.quick() else 5}, capture="gen-bevy.txt", timeout=3000)
+        if count_replay(run["out"]) == 0:
+            raise ToolError("MC_Bevy generator produced no schedules")
+        tr = ctx.path("bevyA-%d.ndjson" % kw)
+        st = run_harness(["drive-file", run["out"], tr], which=HARNESS_BEVY)
+        bevy_validate(ctx, tr, "TLC-enumerated schedules, entity configuration %d" % kw, st)
+        os.remove(run["out"]); os.remove(tr)
+    # leg B: seeded random schedules in random entity configurations
+    tr = ctx.path("bevyB.ndjson")
+    st = run_harness(["drive", ctx.seed, 80 if ctx.quick() else 1500, 25, tr], which=HARNESS_BEVY)
+    for s in st["samples"][:2]:
+        ctx.sample({"validated_frame": s})
+    bevy_validate(ctx, tr, "random schedules", st)
+    os.remove(tr)
+
+
+RULE_BEVY = ("TLC explores every schedule of frame deltas {0,1,3,1000 ticks} and user operations (key assignment, enable/disable, reset, set_timeline) "
+             "up to the depth in tlc_runs on 6 entity configurations under all 8 admissible system orders with each system as its own step; the same "
+             "schedules (leg A) and seeded random ones (leg B) are run in a real App with a hand-driven Time; TLC validates each log (state, position, "
+             "enabled, selector key, event sequence per frame) searching over the system order, and the harness re-evaluates the real timelines at the "
+             "evaluation points predicted by the surviving behaviours and compares component bits")
+
+
+@check("C18")
+def c18(ctx):
+    mc_bevy(ctx)
+    bevy_legs(ctx)
+    ctx.assumptions += ["tick = 1/8 s (exact Duration/as_secs_f32 grid)", "component values are judged against the real Timeline::update (C01-C12 decide that)",
+                        "on the frame of the Waiting->Playing transition and after set_timeline on an Ended animator the component is unconstrained (DESIGN 6 C18)"]
+    return "model_checking", RULE_BEVY
+
+
+@check("C19")
+def c19(ctx):
+    mc_bevy(ctx)
+    bevy_legs(ctx)
+    ctx.assumptions += ["the chain is judged by the state of the governed animator (Ended under the active key), whichever Ended event wakes the system (DESIGN 6 C19)",
+                        "same-frame races between a user key assignment and a pending chain are left open"]
+    return "model_checking", RULE_BEVY
